@@ -203,6 +203,10 @@ func (c *ValidatorCache) GetBySlot(ctx context.Context, slot uint64) (ActiveVali
 type ProposerDuties struct {
 	sync.RWMutex
 
+	// generation is incremented by every reorg invalidation, so that duties fetched before the
+	// invalidation are not stored after it.
+	generation uint64
+
 	requestedIdxs map[eth2p0.Epoch][]eth2p0.ValidatorIndex
 	duties        map[eth2p0.Epoch][]eth2v1.ProposerDuty
 	metadata      map[eth2p0.Epoch]map[string]any
@@ -210,6 +214,7 @@ type ProposerDuties struct {
 
 // ProposerDutiesForEpoch is a map of proposer duties for specific epoch.
 type ProposerDutiesForEpoch struct {
+	generation    uint64 // generation of the cache when it was looked up
 	requestedIdxs []eth2p0.ValidatorIndex
 	duties        []eth2v1.ProposerDuty
 	metadata      map[string]any
@@ -219,6 +224,10 @@ type ProposerDutiesForEpoch struct {
 type AttesterDuties struct {
 	sync.RWMutex
 
+	// generation is incremented by every reorg invalidation, so that duties fetched before the
+	// invalidation are not stored after it.
+	generation uint64
+
 	requestedIdxs map[eth2p0.Epoch][]eth2p0.ValidatorIndex
 	duties        map[eth2p0.Epoch][]eth2v1.AttesterDuty
 	metadata      map[eth2p0.Epoch]map[string]any
@@ -226,6 +235,7 @@ type AttesterDuties struct {
 
 // AttesterDutiesForEpoch is a map of attester duties for specific epoch.
 type AttesterDutiesForEpoch struct {
+	generation    uint64 // generation of the cache when it was looked up
 	requestedIdxs []eth2p0.ValidatorIndex
 	duties        []eth2v1.AttesterDuty
 	metadata      map[string]any
@@ -235,6 +245,10 @@ type AttesterDutiesForEpoch struct {
 type SyncDuties struct {
 	sync.RWMutex
 
+	// generation is incremented by every reorg invalidation, so that duties fetched before the
+	// invalidation are not stored after it.
+	generation uint64
+
 	requestedIdxs map[eth2p0.Epoch][]eth2p0.ValidatorIndex
 	duties        map[eth2p0.Epoch][]eth2v1.SyncCommitteeDuty
 	metadata      map[eth2p0.Epoch]map[string]any
@@ -242,6 +256,7 @@ type SyncDuties struct {
 
 // SyncDutiesForEpoch is a map of sync committee duties for specific epoch.
 type SyncDutiesForEpoch struct {
+	generation    uint64 // generation of the cache when it was looked up
 	requestedIdxs []eth2p0.ValidatorIndex
 	duties        []eth2v1.SyncCommitteeDuty
 	metadata      map[string]any
@@ -443,7 +458,7 @@ func (c *DutiesCache) ProposerDutiesCache(ctx context.Context, epoch eth2p0.Epoc
 		dutiesDeref = append(dutiesDeref, d)
 	}
 
-	_, ok = c.storeOrAmendProposerDuties(epoch, ProposerDutiesForEpoch{duties: dutiesDeref, metadata: maps.Clone(eth2Resp.Metadata), requestedIdxs: requestVidxs})
+	_, ok = c.storeOrAmendProposerDuties(epoch, ProposerDutiesForEpoch{duties: dutiesDeref, metadata: maps.Clone(eth2Resp.Metadata), requestedIdxs: requestVidxs, generation: dutiesForEpoch.generation})
 	if !ok {
 		log.Debug(ctx, "Failed to cache proposer duties - another routine already cached duties for this epoch, skipping", z.U64("epoch", uint64(epoch)))
 	}
@@ -538,7 +553,7 @@ func (c *DutiesCache) AttesterDutiesCache(ctx context.Context, epoch eth2p0.Epoc
 		dutiesDeref = append(dutiesDeref, d)
 	}
 
-	_, ok = c.storeOrAmendAttesterDuties(epoch, AttesterDutiesForEpoch{duties: dutiesDeref, metadata: maps.Clone(eth2Resp.Metadata), requestedIdxs: requestVidxs})
+	_, ok = c.storeOrAmendAttesterDuties(epoch, AttesterDutiesForEpoch{duties: dutiesDeref, metadata: maps.Clone(eth2Resp.Metadata), requestedIdxs: requestVidxs, generation: dutiesForEpoch.generation})
 	if !ok {
 		log.Debug(ctx, "Failed to cache attester duties - another routine already cached duties for this epoch, skipping", z.U64("epoch", uint64(epoch)))
 	}
@@ -637,7 +652,7 @@ func (c *DutiesCache) SyncCommDutiesCache(ctx context.Context, epoch eth2p0.Epoc
 		dutiesDeref = append(dutiesDeref, d)
 	}
 
-	_, ok = c.storeOrAmendSyncDuties(epoch, SyncDutiesForEpoch{duties: dutiesDeref, metadata: maps.Clone(eth2Resp.Metadata), requestedIdxs: requestVidxs})
+	_, ok = c.storeOrAmendSyncDuties(epoch, SyncDutiesForEpoch{duties: dutiesDeref, metadata: maps.Clone(eth2Resp.Metadata), requestedIdxs: requestVidxs, generation: dutiesForEpoch.generation})
 	if !ok {
 		log.Debug(ctx, "Failed to cache sync duties - another routine already cached duties for this epoch, skipping", z.U64("epoch", uint64(epoch)))
 	}
@@ -654,20 +669,20 @@ func (c *DutiesCache) fetchProposerDuties(epoch eth2p0.Epoch) (ProposerDutiesFor
 
 	duties, ok := c.proposerDuties.duties[epoch]
 	if !ok {
-		return ProposerDutiesForEpoch{}, false
+		return ProposerDutiesForEpoch{generation: c.proposerDuties.generation}, false
 	}
 
 	metadata, ok := c.proposerDuties.metadata[epoch]
 	if !ok {
-		return ProposerDutiesForEpoch{}, false
+		return ProposerDutiesForEpoch{generation: c.proposerDuties.generation}, false
 	}
 
 	requestedIdxs, ok := c.proposerDuties.requestedIdxs[epoch]
 	if !ok {
-		return ProposerDutiesForEpoch{}, false
+		return ProposerDutiesForEpoch{generation: c.proposerDuties.generation}, false
 	}
 
-	return ProposerDutiesForEpoch{duties: duties, metadata: metadata, requestedIdxs: requestedIdxs}, true
+	return ProposerDutiesForEpoch{duties: duties, metadata: metadata, requestedIdxs: requestedIdxs, generation: c.proposerDuties.generation}, true
 }
 
 // fetchAttesterDuties returns the cached attester duties and true if they are available.
@@ -677,20 +692,20 @@ func (c *DutiesCache) fetchAttesterDuties(epoch eth2p0.Epoch) (AttesterDutiesFor
 
 	duties, ok := c.attesterDuties.duties[epoch]
 	if !ok {
-		return AttesterDutiesForEpoch{}, false
+		return AttesterDutiesForEpoch{generation: c.attesterDuties.generation}, false
 	}
 
 	metadata, ok := c.attesterDuties.metadata[epoch]
 	if !ok {
-		return AttesterDutiesForEpoch{}, false
+		return AttesterDutiesForEpoch{generation: c.attesterDuties.generation}, false
 	}
 
 	requestedIdxs, ok := c.attesterDuties.requestedIdxs[epoch]
 	if !ok {
-		return AttesterDutiesForEpoch{}, false
+		return AttesterDutiesForEpoch{generation: c.attesterDuties.generation}, false
 	}
 
-	return AttesterDutiesForEpoch{duties: duties, metadata: metadata, requestedIdxs: requestedIdxs}, true
+	return AttesterDutiesForEpoch{duties: duties, metadata: metadata, requestedIdxs: requestedIdxs, generation: c.attesterDuties.generation}, true
 }
 
 // fetchSyncDuties returns the cached sync duties and true if they are available.
@@ -700,20 +715,20 @@ func (c *DutiesCache) fetchSyncDuties(epoch eth2p0.Epoch) (SyncDutiesForEpoch, b
 
 	duties, ok := c.syncDuties.duties[epoch]
 	if !ok {
-		return SyncDutiesForEpoch{}, false
+		return SyncDutiesForEpoch{generation: c.syncDuties.generation}, false
 	}
 
 	metadata, ok := c.syncDuties.metadata[epoch]
 	if !ok {
-		return SyncDutiesForEpoch{}, false
+		return SyncDutiesForEpoch{generation: c.syncDuties.generation}, false
 	}
 
 	requestedIdxs, ok := c.syncDuties.requestedIdxs[epoch]
 	if !ok {
-		return SyncDutiesForEpoch{}, false
+		return SyncDutiesForEpoch{generation: c.syncDuties.generation}, false
 	}
 
-	return SyncDutiesForEpoch{duties: duties, metadata: metadata, requestedIdxs: requestedIdxs}, true
+	return SyncDutiesForEpoch{duties: duties, metadata: metadata, requestedIdxs: requestedIdxs, generation: c.syncDuties.generation}, true
 }
 
 // storeOrAmendProposerDuties stores proposer duties in the cache for the given epoch if they don't exist and false if they already exists.
@@ -722,6 +737,11 @@ func (c *DutiesCache) fetchSyncDuties(epoch eth2p0.Epoch) (SyncDutiesForEpoch, b
 func (c *DutiesCache) storeOrAmendProposerDuties(epoch eth2p0.Epoch, dutiesForEpoch ProposerDutiesForEpoch) ([]eth2v1.ProposerDuty, bool) {
 	c.proposerDuties.Lock()
 	defer c.proposerDuties.Unlock()
+
+	if dutiesForEpoch.generation != c.proposerDuties.generation {
+		// The cache was invalidated by a reorg while these duties were being fetched, they may be stale.
+		return nil, false
+	}
 
 	alreadySavedDuties, ok := c.proposerDuties.duties[epoch]
 	if !ok {
@@ -771,6 +791,11 @@ func (c *DutiesCache) storeOrAmendAttesterDuties(epoch eth2p0.Epoch, dutiesForEp
 	c.attesterDuties.Lock()
 	defer c.attesterDuties.Unlock()
 
+	if dutiesForEpoch.generation != c.attesterDuties.generation {
+		// The cache was invalidated by a reorg while these duties were being fetched, they may be stale.
+		return nil, false
+	}
+
 	alreadySavedDuties, ok := c.attesterDuties.duties[epoch]
 	if !ok {
 		c.attesterDuties.duties[epoch] = dutiesForEpoch.duties
@@ -819,6 +844,11 @@ func (c *DutiesCache) storeOrAmendAttesterDuties(epoch eth2p0.Epoch, dutiesForEp
 func (c *DutiesCache) storeOrAmendSyncDuties(epoch eth2p0.Epoch, dutiesForEpoch SyncDutiesForEpoch) ([]eth2v1.SyncCommitteeDuty, bool) {
 	c.syncDuties.Lock()
 	defer c.syncDuties.Unlock()
+
+	if dutiesForEpoch.generation != c.syncDuties.generation {
+		// The cache was invalidated by a reorg while these duties were being fetched, they may be stale.
+		return nil, false
+	}
 
 	alreadySavedDuties, ok := c.syncDuties.duties[epoch]
 	if !ok {
@@ -968,6 +998,8 @@ func (c *DutiesCache) trimAfterProposerDuties(epoch eth2p0.Epoch) bool {
 	c.proposerDuties.Lock()
 	defer c.proposerDuties.Unlock()
 
+	c.proposerDuties.generation++
+
 	ok := false
 
 	for k := range c.proposerDuties.duties {
@@ -1002,6 +1034,8 @@ func (c *DutiesCache) trimAfterAttesterDuties(epoch eth2p0.Epoch) bool {
 	c.attesterDuties.Lock()
 	defer c.attesterDuties.Unlock()
 
+	c.attesterDuties.generation++
+
 	ok := false
 
 	for k := range c.attesterDuties.duties {
@@ -1035,6 +1069,8 @@ func (c *DutiesCache) trimAfterAttesterDuties(epoch eth2p0.Epoch) bool {
 func (c *DutiesCache) trimAfterSyncDuties(epoch eth2p0.Epoch) bool {
 	c.syncDuties.Lock()
 	defer c.syncDuties.Unlock()
+
+	c.syncDuties.generation++
 
 	ok := false
 
